@@ -29,6 +29,9 @@ func (m *Machine) baTerm(a *ByteArr) string {
 }
 
 func (m *Machine) baSel(a *ByteArr, idx Int) Int {
+	if a.Org != nil && len(m.pendingAx) > 0 {
+		m.flushAxioms() // the bytes of a hash value are inspected individually: its axioms are needed
+	}
 	if idx.IsC() {
 		if v, ok := a.Known[idx.C]; ok {
 			return v
@@ -41,6 +44,7 @@ func (m *Machine) baSel(a *ByteArr, idx Int) Int {
 }
 
 func (m *Machine) baSto(a *ByteArr, idx Int, v Int) {
+	a.Org = nil
 	if idx.IsC() {
 		if a.Known == nil {
 			a.Known = map[uint64]Int{}
@@ -60,6 +64,7 @@ func (m *Machine) baSto(a *ByteArr, idx Int, v Int) {
 
 // baSetTerm replaces the whole content by an SMT term.
 func (m *Machine) baSetTerm(a *ByteArr, t string) {
+	a.Org = nil
 	a.T = t
 	a.Known = nil
 	a.Dirty = nil
@@ -67,7 +72,7 @@ func (m *Machine) baSetTerm(a *ByteArr, t string) {
 }
 
 func cloneByteArr(x *ByteArr) *ByteArr {
-	n := &ByteArr{T: x.T, Cap: x.Cap, Zero: x.Zero}
+	n := &ByteArr{T: x.T, Cap: x.Cap, Zero: x.Zero, Org: x.Org}
 	if len(x.Known) > 0 {
 		n.Known = make(map[uint64]Int, len(x.Known))
 		for k, v := range x.Known {
